@@ -86,6 +86,34 @@ func TestTrace(t *testing.T) {
 		emitUUID(string(bs))
 	}
 
+	// concurrent calls: the offline UUID of a name must not depend on what other goroutines ask for
+	{
+		var wg sync.WaitGroup
+		var cmu sync.Mutex
+		for wkr := 0; wkr < 8; wkr++ {
+			seed := rng.Int63()
+			wg.Add(1)
+			go func() {
+				defer wg.Done()
+				lr := rand.New(rand.NewSource(seed))
+				for i := 0; i < tracefmt.EnvInt("VERIF_CONC", 500); i++ {
+					ln := 1 + lr.Intn(20)
+					bs := make([]byte, ln)
+					for j := range bs {
+						bs[j] = byte('a' + lr.Intn(26))
+					}
+					name := string(bs)
+					u := uuid.OfflinePlayerUUID(name)
+					cmu.Lock()
+					tw.Emit(tracefmt.Rec{"ev": "uuid", "md5": tracefmt.Bytes(md5of(name)), "uuid": tracefmt.Bytes(u[:]), "concurrent": true})
+					nuuid++
+					cmu.Unlock()
+				}
+			}()
+		}
+		wg.Wait()
+	}
+
 	// (b) live logins that end up in offline mode: an offline-mode proxy, and an online-mode
 	// proxy whose pre-login handler forces offline mode (the user name rule and the vanilla
 	// UUID hold for both)
